@@ -267,7 +267,8 @@ func (re *regexpFuncExprNode) Run(ctx context.Context, currField string, tagExpr
 		}
 		return bol
 	case float64, bool:
-		return false
+		// (no match; "!regexp(...)" is the negation of that as of any other result)
+		return re.boolOpposite
 	}
 	v := reflect.ValueOf(param)
 	if v.Kind() == reflect.String {
@@ -277,7 +278,7 @@ func (re *regexpFuncExprNode) Run(ctx context.Context, currField string, tagExpr
 		}
 		return bol
 	}
-	return false
+	return re.boolOpposite
 }
 
 type sprintfFuncExprNode struct {
